@@ -94,6 +94,7 @@ let run (hist : string) (impl : string) =
          let s = ref cl_init in
          let cm = ref (cmon_init, cmon_init) in
          let km = ref (kmon_init, kmon_init) in
+         let calls = Hashtbl.create 16 in      (* API calls of this history: identifier -> kind *)
          let excluded = ref false in
          let ievs = Array.of_list ievs in
          List.iteri (fun k (text, ev) ->
@@ -120,9 +121,19 @@ let run (hist : string) (impl : string) =
              let (kmi, kfi) = kmon_step hst.ccfg !ks ks' kouts ev (ios_of iouts) (fst !km) in
              let (kmm, kfm) = kmon_step hst.ccfg !ks ks' kouts ev outs (snd !km) in
              km := (kmi, kmm);
+             (match ev with CCall (id, a) -> Hashtbl.replace calls (int_of_n id) a | _ -> ());
+             (* clause 3: which kind of call failed (the recorded finding is about Ping calls of the API) *)
+             let failed_victims = List.concat_map (fun (o : co) ->
+                 match split_on ' ' o.text with
+                 | ["RET"; id; r] when r <> "ok" && List.exists (fun v -> int_of_n v = int_of_string id) ks'.ka_victims ->
+                   (try [Hashtbl.find calls (int_of_string id)] with Not_found -> [])
+                 | _ -> []) iouts in
+             let vclass = if failed_victims <> [] && List.for_all (fun a -> a = APing) failed_victims then " class=api-ping-call"
+               else " class=other-call" in
              let kfails = List.map (fun (p, c) ->
                  (Printf.sprintf "C%02d" (int_of_n p),
-                  Printf.sprintf "clause%d%s" (int_of_n c) (if List.mem (p, c) kfm then " model=fails" else " model=holds"))) kfi in
+                  Printf.sprintf "clause%d%s%s" (int_of_n c) (if int_of_n c = 3 then vclass else "")
+                    (if List.mem (p, c) kfm then " model=fails" else " model=holds"))) kfi in
              List.iter (fun (p, c) ->
                  fail p c k (Printf.sprintf "event=%s impl=[%s]" text (String.concat "; " (List.map show iouts)))) (fails @ kfails);
              let rec cmp ms is =
